@@ -56,7 +56,12 @@ func browserHost(target string, base *url.URL) (host string, ok bool) {
 		}
 		authority = strings.TrimLeft(s, "/")
 	default:
-		return "", false // javascript:, data:, ... never lead to the host
+		// javascript:, data:, ...: a browser does not navigate to a host for these; if the URI has an
+		// authority part at all we report it, otherwise there is no host
+		if !strings.HasPrefix(s, "//") {
+			return "", false
+		}
+		authority = strings.TrimPrefix(s, "//")
 	}
 	if i := strings.IndexAny(authority, "/?#"); i >= 0 {
 		authority = authority[:i]
@@ -89,4 +94,37 @@ func bothOnHost(target, scheme, host string) (bool, string, string) {
 	h2, ok2 := browserHost(target, base)
 	want := strings.ToLower(base.Hostname())
 	return ok1 && ok2 && h1 == want && h2 == want, h1, h2
+}
+
+// inRootDomains reports whether host is one of the root domains or a subdomain of one
+// (case-insensitively, a trailing dot ignored, leading dots of configured domains ignored).
+func inRootDomains(host string, roots []string) bool {
+	h := strings.TrimSuffix(strings.ToLower(host), ".")
+	for _, r := range roots {
+		r = strings.TrimSuffix(strings.TrimLeft(strings.ToLower(r), "."), ".")
+		if r != "" && (h == r || strings.HasSuffix(h, "."+r)) {
+			return true
+		}
+	}
+	return false
+}
+
+// bothInDomain: both readings of target resolve to a host inside the root domains.
+func bothInDomain(target string, base *url.URL, roots []string) (bool, string, string) {
+	h1, ok1 := rfcHost2(target, base)
+	h2, ok2 := browserHost(target, base)
+	return ok1 && ok2 && inRootDomains(h1, roots) && inRootDomains(h2, roots), h1, h2
+}
+
+// rfcHost2 is rfcHost without the http(s) restriction (the scheme is judged separately).
+func rfcHost2(target string, base *url.URL) (string, bool) {
+	u, err := url.Parse(target)
+	if err != nil {
+		return "", false
+	}
+	r := base.ResolveReference(u)
+	if r.Host == "" {
+		return "", false
+	}
+	return strings.ToLower(r.Hostname()), true
 }
